@@ -39,6 +39,6 @@ for p in ALL:
             'level_claimed': {'category': 'other', 'text': c['text'], 'design_ref': c.get('design_ref', f'DESIGN.md section 4 {p}')},
             'level_note': c['note'], 'technique': c['technique']})
     else:
-        man['not_applicable'].append({'property_id': p, 'reason': NA[p]})
+        man['not_applicable'].append({'property_id': p, 'reason': NA.get(p, 'not claimed: no sound static argument in reach (see DESIGN.md)')})
 json.dump(man, open(os.path.join(V, 'MANIFEST.json'), 'w'), indent=1)
 print('claimed', len(man['checks']), 'not_applicable', len(man['not_applicable']))
